@@ -35,7 +35,10 @@ package geom
 //@   ovfcheck
 //@   requires len(p) % 8 == 0
 //@   modifies p
+//@   ensures forall k :: 0 <= k && k < len(p) ==> p[k] == old(p[k - 2 * (k % 8) + 7])
 //@   loop 0 invariant 0 <= i && i <= len(p) && i % 8 == 0
+//@   loop 0 invariant forall k :: 0 <= k && k < i ==> p[k] == old(p[k - 2 * (k % 8) + 7])
+//@   loop 0 invariant forall k :: i <= k && k < len(p) ==> p[k] == old(p[k])
 
 //@ func (*wkbParser).readByte
 //@   ovfcheck
